@@ -30,6 +30,8 @@ CLAIMED = {
    text="The whole module is snapshotted before and after one simulated goderive run that ends, by the simulator's choice, in success, a generator error, a load error or an injected I/O fault (EIO/EACCES/EROFS/ENOSPC on create, write, close or remove of derived.gen.go, short writes); without flags nothing but derived.gen.go of processed packages may differ. Under -autoname/-dedup on modules with injected clashes each user file must equal gofmt(original with exactly the renamed call identifiers substituted), computed from an independent go/parser parse, and files without a renamed call must be byte-identical.", note=GEN_NOTE),
  "C11": dict(engine="gensim", cat="exploration", ref="DESIGN.md sections 4, 5.C11", tech="deterministic simulation: clash worlds under all four flag combinations and permuted map order, with and without a prior derived file; independent clash predicate + go/types call-site check",
    text="Modules with conflicts and duplicates (small name x type x plugin alphabet, and random modules with injected clashes and hand-written called functions in the fresh-name path), optionally starting from a derived.gen.go generated for an earlier clash-free version, are executed under all four -autoname/-dedup combinations and two map-iteration plans; the exit status must be what the statement prescribes from an independently computed clash predicate and must not depend on map order; after a successful flagged run the package must type-check, every call site's callee must have parameter types identical to the argument types, and after -dedup no plugin has two functions with one parameter list.", note=GEN_NOTE),
+ "C12": dict(engine="gensim", cat="exploration", ref="DESIGN.md sections 4, 5.C12", tech="deterministic simulation: default vs prefixed rendering of one world under permuted plugin registration and map order; canonical-form equality",
+   text="Each generated module is rendered with default names and with a tape-drawn prefix map (global prefix, per-plugin overrides, nested prefixes), the prefixed one executed under two simulator-chosen plugin registration permutations and map plans; exit status must agree, a global-prefix output must be textually the default output after mapping the prefix back, and otherwise both outputs must have the same canonical form (functions renamed to plugin-by-longest-prefix/parameter-types, sorted); outputs under both registration orders must be identical.", note=GEN_NOTE),
 }
 PENDING = {
  "C09":"claimed in DESIGN.md (gensim); check not built yet in this commit",
